@@ -385,7 +385,7 @@ func checkDecodeGuards(p *Program, r *Result, dec, cb *ssa.Function) {
 		// every data symbol in the charset
 		okSym := false
 		for _, l := range rangeLoops(dec) {
-			if l.Kind != "rangeiter" || len(l.earlyExits()) != 0 {
+			if l.Kind != "rangeiter" || len(p.loopEarlyExits(l)) != 0 {
 				continue
 			}
 			for _, rt := range returnsOf(dec) {
